@@ -94,6 +94,10 @@ func genAmbient(t *rapid.T) map[string]string {
 		out["ipfix-mirror-port"], out["sflow-mirror-port"] = "9", "9"
 		out["ipfix-mirror-workers"], out["sflow-mirror-workers"] = "2", "2"
 	}
+	// the shipped ipfix.elements installed in the configuration directory (C20: decoding does not depend on it)
+	if el := rapid.SampledFrom([]string{"", "", "copy", "copy", "link"}).Draw(t, "ambelements"); el != "" {
+		out["~elements~"] = el
+	}
 	// the raw-socket producer's retry limit (0 = no retries, absent = its default)
 	if r := rapid.SampledFrom([]string{"", "", "0", "0", "1", "5", "~drop~"}).Draw(t, "ambretry"); r != "" {
 		out["mq:retry-max"] = r
@@ -410,6 +414,15 @@ func e2eDecodeTest(t *testing.T, prop, proto string) {
 	seed := e2eSeed()
 	for i := 0; i < n; i++ {
 		c := gen.Example(seed*1000 + 400 + i)
+		if prop == "C20" {
+			// C20's stage: always with the shipped elements file installed (as a copy or behind a link)
+			if c.Ambient == nil {
+				c.Ambient = map[string]string{}
+			}
+			if c.Ambient["~elements~"] == "" {
+				c.Ambient["~elements~"] = []string{"copy", "link"}[i%2]
+			}
+		}
 		v, sig, err := runE2EPipe(prop, &c)
 		col.report(t, mustJSON(c), v, sig, err)
 		col.addExtra("e2e_cases", 1)
@@ -420,6 +433,10 @@ func TestC03E2E(t *testing.T) { e2eDecodeTest(t, "C03", "ipfix") }
 func TestC06E2E(t *testing.T) { e2eDecodeTest(t, "C06", "nf9") }
 func TestC07E2E(t *testing.T) { e2eDecodeTest(t, "C07", "sflow") }
 func TestC08E2E(t *testing.T) { e2eDecodeTest(t, "C08", "nf5") }
+func TestC20E2E(t *testing.T) {
+	e2eDecodeTest(t, "C20", "ipfix")
+	e2eDecodeTest(t, "C20", "nf9")
+}
 
 func e2ePipeTest(t *testing.T, prop string) {
 	col := getCollector(prop, "")
